@@ -58,8 +58,12 @@ def subs_len(T):
     return z3.Function('subs_len', usort('Type'), z3.IntSort())(T)
 
 
+def subs_arr(T):
+    return z3.Function('subs_arr', usort('Type'), z3.ArraySort(z3.IntSort(), usort('Type')))(T)
+
+
 def subs_at(T, i):
-    return z3.Function('subs_at', usort('Type'), z3.IntSort(), usort('Type'))(T, i)
+    return subs_arr(T)[i]
 
 
 def next_sub(T, S):
@@ -73,8 +77,11 @@ def hierarchy_axioms():
     i = z3.Int('hi')
     ax = [
         forall([a], desc(a, a), patterns=[desc(a, a)]),
-        forall([a, b, c], z3.Implies(z3.And(desc(a, b), desc(b, c)), desc(a, c)),
-                  patterns=[z3.MultiPattern(desc(a, b), desc(b, c))]),
+        # transitivity restricted to one step down (the general rule makes
+        # E-matching loop and is derivable from this one by induction)
+        forall([a, b, i], z3.Implies(z3.And(desc(a, b), 0 <= i, i < subs_len(b)),
+                                     desc(a, subs_at(b, i))),
+               patterns=[z3.MultiPattern(desc(a, b), subs_at(b, i))]),
         forall([a], subs_len(a) >= 0, patterns=[subs_len(a)]),
         forall([a, i], z3.Implies(z3.And(0 <= i, i < subs_len(a)),
                                      z3.And(desc(a, subs_at(a, i)), subs_at(a, i) != a,
@@ -83,7 +90,9 @@ def hierarchy_axioms():
         forall([a, b], z3.Implies(z3.And(desc(a, b), a != b),
                                      z3.And(0 <= next_sub(a, b), next_sub(a, b) < subs_len(a),
                                             desc(subs_at(a, next_sub(a, b)), b))),
-                  patterns=[desc(a, b)]),
+               # instantiated only where a witness index is actually mentioned
+               # (triggering on desc(a, b) makes E-matching descend forever)
+               patterns=[next_sub(a, b)]),
     ]
     return ax
 
@@ -511,7 +520,7 @@ def list_map(X, lst, f, E):
     img = E.to_leaves(f(lst.at(i)))
     for a, l in zip(ats, img):
         X.assume(forall([i], z3.Implies(z3.And(0 <= i, i < lst.n), a[i] == l),
-                           patterns=[a[i]]))
+                        patterns=[a[i]] + [src[i] for src in lst.ats]))
     return ListV(E, lst.n, ats)
 
 
@@ -644,6 +653,12 @@ def abstract_lt(X, op, a, b, node):
 def norm_index(X, lst_n, idx, node, check=True):
     """Python index (negative allowed) -> array index, IndexError fork."""
     i = X.num(idx, node)
+    if X.spec_mode:
+        # specifications index lists directly (triggers must stay if-free);
+        # a negative literal still counts from the end
+        if z3.is_int_value(i) and i.as_long() < 0:
+            return z3.simplify(lst_n + i)
+        return i
     j = z3.If(i < 0, i + lst_n, i)
     if check and not X.spec_mode:
         if X.branch(z3.Or(j < 0, j >= lst_n)):
@@ -707,6 +722,9 @@ def get_item(X, cont, key, node):
         return v
     if isinstance(c, ZV) and is_usort(c.t.sort()):
         return X.spec.getitem_object(X, c, k, node)
+    if isinstance(c, ZV) and c.t.sort().kind() == z3.Z3_ARRAY_SORT:
+        r = c.t[coerce_term(k, c.t.sort().domain())]
+        return ZV(r)
     h = X.spec.getitem_hook(X, c, k, node)
     if h is not None:
         return h
@@ -733,7 +751,7 @@ def set_item(X, cont, key, v, node):
         kt = coerce_term(k, c.K.sort)
         if isinstance(v, Loc) and isinstance(c.V, (TSet, TDict, TList)):
             X.unsupported('aliasing store of a heap container', node)
-        _write_back(X, cont, c.store(kt, X.adapt(v, c.V)), node)
+        _write_back(X, cont, X.typed_store('dict value', lambda: c.store(kt, X.adapt(v, c.V))), node)
         return
     if isinstance(c, ListV):
         j = norm_index(X, c.n, k, node)
@@ -931,7 +949,8 @@ def set_add(X, obj, args, kw, node):
     if isinstance(c, Con):
         K = type_of_val(it)
         c = TSet(K).empty()
-    _write_back(X, obj, SetV(c.K, z3.Store(c.arr, coerce_term(it, c.K.sort), True)), node)
+    kt = X.typed_store('set element', lambda: coerce_term(it, c.K.sort))
+    _write_back(X, obj, SetV(c.K, z3.Store(c.arr, kt, True)), node)
     return NONE
 
 
@@ -1096,8 +1115,9 @@ def list_append(X, obj, args, kw, node):
         _write_back(X, obj, TupV(c.items + [args[0]], is_list=True), node)
         return NONE
     if isinstance(c, ListV):
+        lv = X.typed_store('list element', lambda: c.E.to_leaves(args[0]))
         _write_back(X, obj, ListV(c.E, c.n + 1, [z3.Store(a, c.n, l) for a, l in
-                                                 zip(c.ats, c.E.to_leaves(args[0]))]), node)
+                                                 zip(c.ats, lv)]), node)
         return NONE
     X.unsupported('append on %r' % (c,), node)
 
